@@ -597,6 +597,20 @@ pub fn generate(seed: u64, case: u64, max_steps: usize) -> Ran {
                 continue;
             }
         }
+        // an admin is dropped by an update that repeats another admin in its place (the list keeps its length); the dropped
+        // one then tries to use the proxy and to change the admins
+        if cur.mutable && cur.admins.len() >= 2 && cur.admins.iter().all(|a| *a < n) && cur.admins[0] != cur.admins[1] && r.chance(1, 12) {
+            let keep = cur.admins[0];
+            let gone = cur.admins[1];
+            let mut l: Vec<Arg> = cur.admins.iter().map(|a| Arg::Id(if *a == gone { keep } else { *a })).collect();
+            if r.chance(1, 3) {
+                l.reverse();
+            }
+            pending.push_back(Step { h, t, s: keep, op: Op::UpdateAdmins { l } });
+            pending.push_back(Step { h, t, s: gone, op: Op::Execute { msgs: vec![CMsg::BankSend { to: any, coins: vec![(0, Uint128::new(1))] }] } });
+            pending.push_back(Step { h, t, s: gone, op: Op::UpdateAdmins { l: vec![Arg::Id(gone)] } });
+            continue;
+        }
         // a permission probe: one subkey gets a random combination of the four flags and tries each kind of staking /
         // distribution message on its own (each preceded by the CanExecute query)
         if subkeys && !cur.admins.is_empty() && cur.admins[0] < n && r.chance(1, 20) {
